@@ -31,7 +31,7 @@ CMP = ("x", "fun", "jac", "nfev", "njev", "nit", "message", "sk", "yk")
 
 def floors(tier):
     return {"identity_pairs_compared": 60, "switch_runs": 250, "post_switch_states_checked": 800, "switches_dropping_pairs": 40,
-            "switches_newest_pair_rejected": 5, "restart_equivalence_checked": 250, "initial_call_rewrites_on_restart": 100, "switch_runs_traced_through_a_logger": 100, "filter_calls_on_histories_of_12_to_45_pairs": 300, "pairs_of_zero_iteration_continuations_checked": 60, "switch_runs_with_new_objective_undefined_at_an_old_iterate": 40, "switch_runs_with_inert_differencing_step": 100, "__nontrivial__": 40}
+            "switches_newest_pair_rejected": 5, "restart_equivalence_checked": 250, "initial_call_rewrites_on_restart": 100, "redefinitions_written_in_place_and_with_new_arrays_compared": 100, "switch_runs_traced_through_a_logger": 100, "filter_calls_on_histories_of_12_to_45_pairs": 300, "pairs_of_zero_iteration_continuations_checked": 60, "switch_runs_with_new_objective_undefined_at_an_old_iterate": 40, "switch_runs_with_inert_differencing_step": 100, "__nontrivial__": 40}
 
 
 def cases(tier, seed):
@@ -62,6 +62,10 @@ def cases(tier, seed):
         yield {"kind": "switch", "problem": ps, "maxcor": int(rng.integers(3, 9)), "maxiter": int(rng.integers(8, 16)), "switch_at": int(rng.integers(3, 8)),
                "variant": "indefinite_skip0", "vseed": int(rng.integers(0, 2**31 - 1)), "strength": float(rng.uniform(0.5, 3.0)),
                "eps_SY": float(gen.pick(rng, [2.2e-16, 1e-3, 1e-2])), "rewrite": "same_arrays", "undefined_at": None, "fd_step": None}
+    for i in range(200 if tier == "quick" else 6000):
+        ps = gen.rand_spec(rng, ("qp", "qp_quartic", "qp_softplus", "rosenbrock"), nmax=7, nmin=2, boxes=("none", "mixed", "boxed", "lower"), starts=("interior", "face", "vertex"), condmax=1e3)
+        yield {"kind": "in_place_vs_copy", "problem": ps, "maxcor": int(rng.integers(1, 8)), "maxiter": int(rng.integers(3, 14)),
+               "switch_at": int(gen.pick(rng, [0, 0, 0, 1, 2, 4])), "vseed": int(rng.integers(0, 2**31 - 1)), "strength": float(np.exp(rng.uniform(-2, 1.5)))}
     for i in range(100 if tier == "quick" else 4000):
         # the curvature filter applied to a rewritten history, called directly on histories of up to 45 pairs (every retained pair must
         # satisfy the condition with respect to the points actually kept around it)
@@ -554,12 +558,67 @@ def run_switch_on_restart(spec, out):
     out.sample = dict(spec=spec, variant=desc, pairs_in_checkpoint=m, pairs_kept=len(keepX) - 1)
 
 
+def run_in_place_vs_copy(spec, out):
+    """The objective gains a linear term t.x at the k-th call of the update function (k = 0: the call made before the first iteration). The
+    update is written twice: once handing back NEW arrays holding the corrected values, once adding the correction IN PLACE to every array
+    it is handed (current gradient and stored gradients) and handing the same objects back. Both describe the same redefinition and the
+    two runs must coincide digit for digit."""
+    from collections import deque
+
+    P0 = gen.make_problem(spec["problem"])
+    rng = np.random.default_rng(spec["vseed"])
+    t = rng.standard_normal(P0.n) * float(spec["strength"])
+    res = []
+    for mode in ("copy", "in_place"):
+        S = Switched(P0, (lambda x: P0.f(x) + float(t @ x)), (lambda x: P0.g(x) + t))
+        calls = {"n": 0}
+
+        def ufd(x, f0, f0_old, grad, X, G, S=S, calls=calls, mode=mode):
+            j = calls["n"]
+            calls["n"] += 1
+            if j != spec["switch_at"] or S.on:
+                return f0, f0_old, grad, G
+            S.on = True
+            xo = np.asarray(X[-1], dtype=float) if len(X) else np.asarray(x, dtype=float)
+            fn, fo = f0 + float(t @ x), f0_old + float(t @ xo)
+            if mode == "copy":
+                return fn, fo, np.asarray(grad, dtype=float) + t, deque(np.asarray(g, dtype=float) + t for g in G)
+            grad += t
+            for g in G:
+                g += t  # (the stored gradients are those of the PAST points: none of them is the array of the current gradient)
+            return fn, fo, grad, G
+
+        cfg = dict(jac="callable", maxcor=spec["maxcor"], maxls=20, maxiter=spec["maxiter"], ftol=0.0, gtol=1e-10, maxfun=10000, cb="never")
+        res.append(probes.run_min(S, cfg, hooks={"ufd": ufd}))
+    a, b = res
+    out.count("redefinitions_written_in_place_and_with_new_arrays_compared")
+    name = f"linear term switched on at update call {spec['switch_at']} on {P0.spec['family']} n={P0.n} maxcor={spec['maxcor']}"
+    tags = dict(kind="in_place_vs_copy")
+    if (a.exc is None) != (b.exc is None):
+        out.violate("switch_run_raised", f"{name}: one of the two runs raised ({a.exc!r} / {b.exc!r})", **tags)
+        return
+    if a.exc is not None:
+        out.count("switch_never_reached")
+        return
+    bad = probes.diff_states(a.snap, b.snap)
+    same_log = len(a.evals) == len(b.evals) and all(u[0] == v[0] and np.array_equal(u[1], v[1]) for u, v in zip(a.evals, b.evals))
+    if bad or not same_log:
+        out.violate("in_place_update_differs_from_copying_update", f"{name}: the update function that corrects the arrays it is handed in place gives fields {bad} / an "
+                    f"evaluation log ({len(b.evals)} vs {len(a.evals)} calls) different from the one that hands back new arrays with the same values", **tags)
+        return
+    out.nontrivial = len(a.cb) >= 2
+    out.sample = dict(spec=spec)
+
+
 def run(spec):
     out = Outcome()
     if spec["kind"] == "identity":
         run_identity(spec, out)
         out.key = f"identity/{spec['problem']['family']}/{spec['problem']['seed']}"
         out.sample = dict(spec=spec)
+    elif spec["kind"] == "in_place_vs_copy":
+        run_in_place_vs_copy(spec, out)
+        out.key = f"in_place_vs_copy/{spec['problem']['seed']}/{spec['vseed']}/{spec['switch_at']}"
     elif spec["kind"] == "filter":
         from .C10 import run_filter
 
